@@ -165,7 +165,7 @@ def main():
                 "evidence_file": f"/verif/evidence/{pid}.json",
                 "replay_cmd_template": f"/venv/bin/python check.py {pid} --explain {{path}}",
                 "engine": "hsverif",
-                "level_claimed": {"category": "other", "text": text, "design_ref": ref},
+                "level_claimed": {"category": "other", "text": text, "design_ref": ref + "; as built: DESIGN.md §12.3"},
                 "level_note": note,
                 "technique": "static analysis: " + tech,
             })
